@@ -90,6 +90,7 @@ type Ctx struct {
 	noNote          int // >0 while havocking at a loop header (not a write of the loop body)
 	recSpecs        map[string]*recSpec
 	inputs          *inputDesc
+	effectFreeUsed  map[string]bool
 	noAssume        map[string]bool // obligations (known findings) whose goals must not be assumed afterwards
 }
 
@@ -117,6 +118,7 @@ func (c *Ctx) resetPass() {
 	c.uncontracted = map[string]int{}
 	c.trustedUsed = map[string]bool{}
 	c.inlined = map[string]bool{}
+	c.effectFreeUsed = map[string]bool{}
 	c.usesReal = false
 	c.warnings = nil
 	c.outOfSubset = nil
